@@ -96,8 +96,21 @@ macro_rules! prim {
 prim!(f32, u32);
 prim!(f64, u64);
 
+/// same special-value behaviour (NaN, infinities, signed zeros) and, for finite non-zero
+/// results, equality up to 4 units in the last place ("to within floating-point rounding")
 fn same<T: Prim>(a: T, b: T) -> bool {
-    a.bits() == b.bits() || (a.nan() && b.nan())
+    if a.bits() == b.bits() || (a.nan() && b.nan()) {
+        return true;
+    }
+    if a.nan() || b.nan() || !a.is_finite() || !b.is_finite() || a == T::of_f64(0.0) || b == T::of_f64(0.0) {
+        return false;
+    }
+    if (a < T::of_f64(0.0)) != (b < T::of_f64(0.0)) {
+        return false;
+    }
+    let (x, y) = (a.bits() & (u64::MAX >> 1), b.bits() & (u64::MAX >> 1));
+    let sign_mask = if T::NAME == "f32" { 0x7fff_ffffu64 } else { u64::MAX >> 1 };
+    (x & sign_mask).abs_diff(y & sign_mask) <= 4
 }
 /// min/max on two zeros of different sign (and NaN propagation) is not pinned down by std
 fn unspecified_pair<T: Prim>(name: &str, a: T, b: T) -> bool {
@@ -377,7 +390,7 @@ where
 
 pub fn run(tier: Tier) -> i32 {
     let mut rep = Report::new("C19", tier);
-    rep.rule = "function pointers and constants obtained from FloatOpsFactory::<f32|f64>::make() and the same names through parsed expressions, compared bit-for-bit (NaN = NaN) with the harness' own name -> std primitive table; arguments: special-value catalogue (all ordered pairs), bit-pattern lattices, and (thorough) every f32 bit pattern for unary operators; every evaluation is a distinct non-trivial case".into();
+    rep.rule = "function pointers and constants obtained from FloatOpsFactory::<f32|f64>::make() and the same names through parsed expressions, compared for identical special-value behaviour (NaN, infinities, signed zeros) and equality within 4 ulp otherwise with the harness' own name -> std primitive table; arguments: special-value catalogue (all ordered pairs), bit-pattern lattices, and (thorough) every f32 bit pattern for unary operators; every evaluation is a distinct non-trivial case".into();
     rep.assumptions = vec!["min/max on two zeros or with NaN are not pinned down by the Rust primitive and are skipped".into(), "libm determinism: the same primitive on the same argument gives the same bits within one process".into()];
     install_panic_hook();
     check_direct::<f64>(&mut rep);
